@@ -64,7 +64,11 @@ pub fn synth_schema_sdl() -> String {
          directive @onFD on FRAGMENT_DEFINITION\ndirective @onFS on FRAGMENT_SPREAD\ndirective @onIF on INLINE_FRAGMENT\n\
          directive @any on QUERY | MUTATION | SUBSCRIPTION | FIELD | FRAGMENT_DEFINITION | FRAGMENT_SPREAD | INLINE_FRAGMENT\n\
          directive @rep repeatable on QUERY | MUTATION | SUBSCRIPTION | FIELD | FRAGMENT_DEFINITION | FRAGMENT_SPREAD | INLINE_FRAGMENT\n\
-         directive @typeOnly on OBJECT\n{}",
+         directive @typeOnly on OBJECT\n\
+         directive @mixA on OBJECT | FIELD | FIELD_DEFINITION | QUERY | ENUM_VALUE | INLINE_FRAGMENT\n\
+         directive @mixB repeatable on SCHEMA | FRAGMENT_SPREAD | ARGUMENT_DEFINITION | FRAGMENT_DEFINITION | INPUT_OBJECT | MUTATION | SUBSCRIPTION\n\
+         directive @mixC on INLINE_FRAGMENT | INTERFACE | SUBSCRIPTION | UNION | FIELD\n\
+         directive @pairFQ on FIELD | QUERY\ndirective @pairSD on FRAGMENT_SPREAD | FRAGMENT_DEFINITION\n{}",
         q, d_args, crate::schemas::BUILTINS
     )
 }
@@ -239,7 +243,7 @@ pub fn directive_case(dname: &str, loc: usize, mult: usize, nest: usize) -> GDoc
     GDoc(defs)
 }
 
-pub const SYNTH_DIRECTIVES: &[&str] = &["onQ", "onM", "onS", "onF", "onFD", "onFS", "onIF", "any", "rep", "typeOnly", "zzUnknown", "skip"];
+pub const SYNTH_DIRECTIVES: &[&str] = &["onQ", "onM", "onS", "onF", "onFD", "onFS", "onIF", "any", "rep", "typeOnly", "zzUnknown", "skip", "mixA", "mixB", "mixC", "pairFQ", "pairSD"];
 
 pub fn synth_schema() -> SchemaInfo {
     SchemaInfo::new("synthetic", &synth_schema_sdl())
@@ -891,7 +895,7 @@ pub fn merge_fragment_dag_cases(rng: &mut Rng, n: usize) -> Vec<GDoc> {
 /// repeatable and undeclared names (so that duplicates of each kind occur next to several others),
 /// on a field, an inline fragment, a fragment spread or the operation.
 pub fn directive_mix_cases(rng: &mut Rng, n: usize) -> Vec<GDoc> {
-    let pool = ["onF", "any", "rep", "zzUnknown", "zzOther", "skip", "onIF", "onFS", "onQ"];
+    let pool = ["onF", "any", "rep", "zzUnknown", "zzOther", "skip", "onIF", "onFS", "onQ", "mixA", "mixB", "mixC", "pairFQ"];
     let mut out = vec![];
     for _ in 0..n {
         let m = rng.range(2, 7);
@@ -1236,7 +1240,7 @@ pub fn merge_shared_subfragment_cases() -> Vec<GDoc> {
 /// a field / an inline fragment / a fragment definition that follows the operation: what the rule
 /// remembers about the current location must be right AFTER leaving a nested node.
 pub fn directive_sibling_cases(rng: &mut Rng, n: usize) -> Vec<GDoc> {
-    let pool = ["onF", "onIF", "onFS", "onFD", "onQ", "any", "zzUnknown"];
+    let pool = ["onF", "onIF", "onFS", "onFD", "onQ", "any", "zzUnknown", "mixA", "mixB", "mixC", "pairSD"];
     let dirs = |rng: &mut Rng| -> Vec<GDir> { (0..rng.below(3)).map(|_| GDir { name: rng.pick(&pool).to_string(), args: vec![] }).collect() };
     let leaf = |d: Vec<GDir>| GSel::Field { alias: None, name: "id".into(), args: vec![], dirs: d, sels: vec![] };
     let mut out = vec![];
@@ -1338,5 +1342,178 @@ pub fn variable_site_cases() -> Vec<GDoc> {
             out.push(GDoc(defs));
         }
     }
+    out
+}
+
+/// name spaces are separate in GraphQL: a fragment may be called like a type, like an operation,
+/// like a field or like a variable.  Renames the fragments of `d` (definitions and every spread)
+/// by a random injective map into `pool` (names of other name spaces) and, `name_ops`, gives the
+/// operations names taken from the same pool (so that an operation and a fragment share a name).
+pub fn collide_names(d: &GDoc, rng: &mut Rng, pool: &[&str], name_ops: bool) -> GDoc {
+    let mut frag_names: Vec<String> = vec![];
+    for def in &d.0 {
+        if let GDef::Frag { name, .. } = def {
+            if !frag_names.contains(name) {
+                frag_names.push(name.clone());
+            }
+        }
+    }
+    let mut free: Vec<&str> = pool.to_vec();
+    let mut map: Vec<(String, String)> = vec![];
+    for n in &frag_names {
+        if free.is_empty() || rng.pct(20) {
+            continue;
+        }
+        let i = rng.below(free.len());
+        map.push((n.clone(), free.remove(i).to_string()));
+    }
+    fn ren(map: &[(String, String)], n: &str) -> String {
+        map.iter().find(|(a, _)| a == n).map(|(_, b)| b.clone()).unwrap_or_else(|| n.to_string())
+    }
+    fn go(map: &[(String, String)], s: &[GSel]) -> Vec<GSel> {
+        s.iter()
+            .map(|x| match x {
+                GSel::Field { alias, name, args, dirs, sels } => GSel::Field { alias: alias.clone(), name: name.clone(), args: args.clone(), dirs: dirs.clone(), sels: go(map, sels) },
+                GSel::Spread { name, dirs } => GSel::Spread { name: ren(map, name), dirs: dirs.clone() },
+                GSel::Inline { tc, dirs, sels } => GSel::Inline { tc: tc.clone(), dirs: dirs.clone(), sels: go(map, sels) },
+            })
+            .collect()
+    }
+    let mut used_op_names: Vec<String> = vec![];
+    let mut defs = vec![];
+    let n_ops = d.0.iter().filter(|x| matches!(x, GDef::Op { .. })).count();
+    for def in &d.0 {
+        match def {
+            GDef::Op { kind, name, vars, dirs, sels } => {
+                let mut kind = *kind;
+                let mut name = name.clone();
+                if name_ops {
+                    // an operation named like one of the (renamed) fragments, or like a pool name
+                    let cands: Vec<String> = map.iter().map(|(_, b)| b.clone()).chain(frag_names.iter().cloned()).chain(pool.iter().map(|s| s.to_string())).filter(|c| !used_op_names.contains(c)).collect();
+                    if !cands.is_empty() && (n_ops == 1 || name.is_some()) {
+                        let c = cands[rng.below(cands.len().min(map.len() + frag_names.len()).max(1))].clone();
+                        used_op_names.push(c.clone());
+                        name = Some(c);
+                        if kind == OpKind::SelSet {
+                            kind = OpKind::Query;
+                        }
+                    }
+                }
+                defs.push(GDef::Op { kind, name, vars: vars.clone(), dirs: dirs.clone(), sels: go(&map, sels) });
+            }
+            GDef::Frag { name, tc, dirs, sels } => defs.push(GDef::Frag { name: ren(&map, name), tc: tc.clone(), dirs: dirs.clone(), sels: go(&map, sels) }),
+        }
+    }
+    GDoc(defs)
+}
+
+/// C05, mutually exclusive parents (inline fragments on A / B below an abstract field) whose
+/// same-keyed composite fields reach a same-keyed sub-field directly on one side and only through
+/// a named fragment (possibly nested, possibly below a further inline fragment) on the other; the
+/// sub-fields differ in name or arguments (allowed: the parents are disjoint) or in shape (never
+/// allowed); the same with non-exclusive parents (A twice) where every difference is a conflict
+pub fn merge_exclusive_fragment_cases() -> Vec<GDoc> {
+    let fld = |alias: Option<&str>, name: &str, args: Vec<(String, GValue)>, sels: Vec<GSel>| GSel::Field { alias: alias.map(|s| s.to_string()), name: name.into(), args, dirs: vec![], sels };
+    let spread = |n: &str| GSel::Spread { name: n.into(), dirs: vec![] };
+    // sub-fields keyed n on type A (the composite field is `peer`/`self` returning A on both sides)
+    let subs: Vec<(&str, Vec<(String, GValue)>)> = vec![
+        ("name", vec![]),
+        ("nick", vec![]),
+        ("a", vec![]),
+        ("nameN", vec![]),
+        ("names", vec![]),
+        ("leafArg", vec![("x".to_string(), GValue::Int(1)), ("y".to_string(), GValue::Int(2))]),
+        ("leafArg", vec![("x".to_string(), GValue::Int(3)), ("y".to_string(), GValue::Int(2))]),
+    ];
+    let mut out = vec![];
+    for (i, s1) in subs.iter().enumerate() {
+        for (j, s2) in subs.iter().enumerate() {
+            if i == j {
+                continue;
+            }
+            for place in 0..6usize {
+                for parents in 0..3usize {
+                    // side 1: direct; side 2: by placement
+                    let n1 = fld(Some("n"), s1.0, s1.1.clone(), vec![]);
+                    let n2 = fld(Some("n"), s2.0, s2.1.clone(), vec![]);
+                    let mut frags: Vec<GDef> = vec![];
+                    let (sub1, sub2): (Vec<GSel>, Vec<GSel>) = match place {
+                        0 => (vec![n1], vec![n2]),
+                        1 => {
+                            frags.push(GDef::Frag { name: "F".into(), tc: "A".into(), dirs: vec![], sels: vec![n2] });
+                            (vec![n1], vec![spread("F")])
+                        }
+                        2 => {
+                            frags.push(GDef::Frag { name: "F".into(), tc: "A".into(), dirs: vec![], sels: vec![n1] });
+                            (vec![spread("F")], vec![n2])
+                        }
+                        3 => {
+                            frags.push(GDef::Frag { name: "F".into(), tc: "A".into(), dirs: vec![], sels: vec![spread("G")] });
+                            frags.push(GDef::Frag { name: "G".into(), tc: "A".into(), dirs: vec![], sels: vec![n2] });
+                            (vec![n1], vec![GSel::Inline { tc: None, dirs: vec![], sels: vec![spread("F")] }])
+                        }
+                        4 => {
+                            frags.push(GDef::Frag { name: "F".into(), tc: "A".into(), dirs: vec![], sels: vec![n1] });
+                            frags.push(GDef::Frag { name: "G".into(), tc: "A".into(), dirs: vec![], sels: vec![n2] });
+                            (vec![spread("F")], vec![spread("G")])
+                        }
+                        _ => {
+                            frags.push(GDef::Frag { name: "F".into(), tc: "Named".into(), dirs: vec![], sels: vec![GSel::Inline { tc: Some("A".into()), dirs: vec![], sels: vec![n2] }] });
+                            (vec![fld(None, "id", vec![], vec![]), n1], vec![spread("F"), fld(None, "id", vec![], vec![])])
+                        }
+                    };
+                    let (c1, f1, c2, f2) = match parents {
+                        0 => ("A", "self", "B", "peer"),
+                        1 => ("B", "peer", "A", "self"),
+                        _ => ("A", "self", "A", "self"),
+                    };
+                    let root = fld(None, "node", vec![], vec![
+                        GSel::Inline { tc: Some(c1.into()), dirs: vec![], sels: vec![fld(Some("o"), f1, vec![], sub1)] },
+                        GSel::Inline { tc: Some(c2.into()), dirs: vec![], sels: vec![fld(Some("o"), f2, vec![], sub2)] },
+                    ]);
+                    let mut defs = vec![GDef::Op { kind: OpKind::SelSet, name: None, vars: vec![], dirs: vec![], sels: vec![root] }];
+                    defs.extend(frags);
+                    out.push(GDoc(defs));
+                }
+            }
+        }
+    }
+    out
+}
+
+/// C19: fragments NAMED like types of the synthetic schema (A, B) with every type condition,
+/// mixed with inline fragments on those types, in every order (length 2 exhaustive, 3 sampled)
+pub fn collect_name_collision_cases(rng: &mut Rng, n3: usize) -> Vec<GDoc> {
+    let leaf = |alias: &str| GSel::Field { alias: Some(alias.into()), name: "id".into(), args: vec![], dirs: vec![], sels: vec![] };
+    let items: Vec<GSel> = vec![
+        GSel::Spread { name: "A".into(), dirs: vec![] },
+        GSel::Spread { name: "B".into(), dirs: vec![] },
+        GSel::Inline { tc: Some("A".into()), dirs: vec![], sels: vec![leaf("ia")] },
+        GSel::Inline { tc: Some("B".into()), dirs: vec![], sels: vec![leaf("ib")] },
+        GSel::Inline { tc: Some("Node".into()), dirs: vec![], sels: vec![leaf("in")] },
+    ];
+    let tcs = ["A", "B", "Node"];
+    let mk = |seq: Vec<GSel>, ta: &str, tb: &str| {
+        GDoc(vec![
+            GDef::Op { kind: OpKind::SelSet, name: None, vars: vec![], dirs: vec![], sels: vec![GSel::Field { alias: None, name: "node".into(), args: vec![], dirs: vec![], sels: seq }] },
+            GDef::Frag { name: "A".into(), tc: ta.into(), dirs: vec![], sels: vec![leaf("fa"), GSel::Inline { tc: Some("B".into()), dirs: vec![], sels: vec![leaf("fab")] }] },
+            GDef::Frag { name: "B".into(), tc: tb.into(), dirs: vec![], sels: vec![leaf("fb"), GSel::Spread { name: "A".into(), dirs: vec![] }] },
+        ])
+    };
+    let mut out = vec![];
+    let mut three = vec![];
+    for ta in tcs {
+        for tb in tcs {
+            for x in &items {
+                for y in &items {
+                    out.push(mk(vec![x.clone(), y.clone()], ta, tb));
+                    for z in &items {
+                        three.push(mk(vec![x.clone(), y.clone(), z.clone()], ta, tb));
+                    }
+                }
+            }
+        }
+    }
+    out.extend(pick_sample(three, n3, rng));
     out
 }
